@@ -99,7 +99,7 @@
     #[kani::proof]
     fn as_days_below_2_31() { as_unit(ConstantType::Day, 86400, 0x7fff_ffff) }
     #[kani::proof]
-    fn as_weeks() { as_unit(ConstantType::Week, 604800, CHRONO_MAX_SECS) }
+    fn as_weeks() { as_unit(ConstantType::Week, 604800, 0xf_ffff_ffff) }   // 2^36 s = 2177 years
     #[kani::proof]
     fn as_weeks_below_2_31() { as_unit(ConstantType::Week, 604800, 0x7fff_ffff) }
     #[kani::proof]
